@@ -72,6 +72,8 @@ MC_QUICK = [
     ("mcmod", dict(n=1, maxr=3, nn=2, scopes=4, modon=True)),
     # the real remote target behind destination block D1
     ("mcrp", dict(n=1, maxr=2, nn=2, scopes=4, dmarcs=("off", "quar"), kinds=("rpipe",))),
+    # the real queue behind destination block D1, handing the message on after Commit
+    ("mcqp", dict(n=1, maxr=2, nn=2, scopes=4, dmarcs=("off", "quar"), kinds=("qpipe",))),
 ]
 MC_THOROUGH = [
     ("mc1full", dict(n=1, maxr=3, nn=4, scopes=4, dmarcs=("off", "quar"), only1=True)),
@@ -81,6 +83,7 @@ MC_THOROUGH = [
     ("mcmod", dict(n=2, maxr=2, nn=2, scopes=2, modon=True)),
     ("mcmod1", dict(n=1, maxr=3, nn=2, scopes=4, modon=True)),
     ("mcrp", dict(n=2, maxr=2, nn=2, scopes=2, dmarcs=("off", "quar"), kinds=("rpipe",))),
+    ("mcqp", dict(n=2, maxr=2, nn=2, scopes=2, dmarcs=("off", "quar"), kinds=("qpipe",))),
 ]
 
 
@@ -360,7 +363,7 @@ def repo_test_traces(ctx):
     verdicts, by_t = ctx.validate(
         "CheckRunnerHookTrace", None, events, keep=HOOK_KEEP, name="repotests-trace",
         cfg_text=cfg(n=4, maxr=3, nn=0, scopes=4, dmarcs=("off", "quar"), only1=True, devs=[],
-                     maxdelay=0, tail=TRACE_TAIL, spec="HSpec", kinds=("pipe", "rpipe"), modon=True,
+                     maxdelay=0, tail=TRACE_TAIL, spec="HSpec", kinds=("pipe", "rpipe", "qpipe"), modon=True,
                      extrav=("rq", "rqp")))
     ok = drift = nviol = 0
     for t, recs in sorted(verdicts.items()):
@@ -434,6 +437,10 @@ def run(ctx, replay):
             pool.submit(gen_job, ctx, "gen-rpipe", dict(n=1, maxr=2, nn=1, scopes=2, dmarcs=("off", "quar"),
                                                         devs=open_devs, remote=False, maxdelay=1,
                                                         kinds=("rpipe",))),
+            # the real queue behind the pipeline: what it hands to its own target after Commit
+            pool.submit(gen_job, ctx, "gen-qpipe", dict(n=1, maxr=2, nn=1, scopes=2, dmarcs=("off", "quar"),
+                                                        devs=open_devs, remote=False, maxdelay=1,
+                                                        kinds=("qpipe",))),
         ]
         if thorough:
             gens += [
@@ -459,7 +466,7 @@ def run(ctx, replay):
         behs = []
         for i, f in enumerate(gens):
             got = f.result()
-            if i == 5:      # the widest small scope is sampled (seeded); the others are replayed completely
+            if i == 6:      # the widest small scope is sampled (seeded); the others are replayed completely
                 got = vlib.sample(ctx.rng, got, 4000)
             if i == 0 and not thorough:
                 got = vlib.sample(ctx.rng, got, 1500)
@@ -467,6 +474,7 @@ def run(ctx, replay):
         ctx.cov["exhaustive_small_scope_behaviours"] = len(gens[0].result()) + \
             sum(len(f.result()) for f in gens[4:])
         ctx.cov["remote_behind_pipeline_behaviours"] = len(gens[4].result())
+        ctx.cov["queue_behind_pipeline_behaviours"] = len(gens[5].result())
         behs = dedup(behs)
         if not behs:
             raise vlib.Infra("TLC produced no behaviours")
@@ -509,7 +517,7 @@ def run(ctx, replay):
     verdicts, by_t = ctx.validate(
         "CheckRunnerTrace", None, events, keep=KEEP, batch=1200,
         cfg_text=cfg(n=4, maxr=3, nn=0, scopes=4, dmarcs=("off", "quar"), only1=True, devs=open_devs,
-                     maxdelay=0, tail=TRACE_TAIL, spec="TSpec", kinds=("pipe", "rpipe"), modon=True,
+                     maxdelay=0, tail=TRACE_TAIL, spec="TSpec", kinds=("pipe", "rpipe", "qpipe"), modon=True,
                      extrav=("rq", "rqp")))
 
     ok = drift = extra = 0
